@@ -6,7 +6,7 @@ import ColaVerif.Lemmas.BlockDiag
 /-!
 # C08: list-level lemmas behind the structural rules of `diag` / `trace`
 
-`seqE` / `sumFold` (results of the member calls), outer products and sums in row-major order,
+`dtSeqE` / `sumFold` (results of the member calls), outer products and sums in row-major order,
 the diagonal of a Kronecker product / Kronecker sum / block-diagonal matrix of SQUARE members.
 -/
 
@@ -15,46 +15,46 @@ open Finset
 namespace Op
 variable {R : Type}
 
-/-! ## results of `seqE` / `sumFold` -/
+/-! ## results of `dtSeqE` / `sumFold` -/
 
-theorem seqE_ok {α : Type} : ∀ (rs : List (Except String α)) (ds : List α),
-    seqE rs = .ok ds → rs = ds.map Except.ok
+theorem dtSeqE_ok {α : Type} : ∀ (rs : List (Except String α)) (ds : List α),
+    dtSeqE rs = .ok ds → rs = ds.map Except.ok
   | [], ds, h => by
-    simp only [seqE, Except.ok.injEq] at h
+    simp only [dtSeqE, Except.ok.injEq] at h
     subst h
     rfl
   | r :: rs, ds, h => by
     cases r with
-    | error e => simp [seqE, bind, Except.bind] at h
+    | error e => simp [dtSeqE, bind, Except.bind] at h
     | ok a =>
-      cases hs : seqE rs with
-      | error e => simp [seqE, hs, bind, Except.bind] at h
+      cases hs : dtSeqE rs with
+      | error e => simp [dtSeqE, hs, bind, Except.bind] at h
       | ok as =>
-        simp only [seqE, hs, bind, Except.bind, pure, Except.pure, Except.ok.injEq] at h
+        simp only [dtSeqE, hs, bind, Except.bind, pure, Except.pure, Except.ok.injEq] at h
         subst h
-        simp [seqE_ok rs as hs]
+        simp [dtSeqE_ok rs as hs]
 
-theorem seqE_map_ok {α β : Type} (f : α → Except String β) (g : α → β) :
-    ∀ (Ms : List α) (ds : List β), seqE (Ms.map f) = .ok ds →
+theorem dtSeqE_map_ok {α β : Type} (f : α → Except String β) (g : α → β) :
+    ∀ (Ms : List α) (ds : List β), dtSeqE (Ms.map f) = .ok ds →
       (∀ M ∈ Ms, ∀ d, f M = .ok d → d = g M) → ds = Ms.map g
   | [], ds, h, _ => by
-    simp only [List.map_nil, seqE, Except.ok.injEq] at h
+    simp only [List.map_nil, dtSeqE, Except.ok.injEq] at h
     subst h
     rfl
   | M :: Ms, ds, h, hf => by
-    have h' := seqE_ok _ _ h
+    have h' := dtSeqE_ok _ _ h
     cases ds with
     | nil => simp at h'
     | cons d ds =>
       simp only [List.map_cons, List.cons.injEq] at h'
       have hd : d = g M := hf M (by simp) d h'.1
-      have hrest : seqE (Ms.map f) = .ok ds := by
+      have hrest : dtSeqE (Ms.map f) = .ok ds := by
         rw [h'.2]
         clear h h' hd hf
         induction ds with
         | nil => rfl
-        | cons x xs ih => simp [seqE, ih, bind, Except.bind, pure, Except.pure]
-      rw [hd, seqE_map_ok f g Ms ds hrest (fun M' hM' => hf M' (by simp [hM']))]
+        | cons x xs ih => simp [dtSeqE, ih, bind, Except.bind, pure, Except.pure]
+      rw [hd, dtSeqE_map_ok f g Ms ds hrest (fun M' hM' => hf M' (by simp [hM']))]
       rfl
 
 variable [CommRing R]
